@@ -19,7 +19,13 @@ def pool_preds(tier, rng):
         conj.append(("and", a, b))
     rng.shuffle(conj)
     k = 40 if tier == "quick" else 300
-    return atoms + neg + conj[:k]
+    # nested conjunctions with repeated and re-associated operands: And-equality (behind the `and` clause of implies)
+    # must compare the two operands as they stand, not a flattened set
+    a, b, c, d = atoms[2], atoms[5], atoms[9], atoms[13]
+    nested = [("and", ("and", a, a), d), ("and", a, c), ("and", ("and", a, b), c), ("and", a, ("and", b, c)), ("and", ("and", a, c), ("and", a, c)),
+              ("and", d, ("and", a, a)), ("and", ("and", a, d), a), ("and", c, a), ("and", ("and", b, a), c), ("and", ("and", a, a), a), ("and", a, a),
+              ("or", ("and", a, b), c), ("and", ("or", a, b), ("or", b, a)), ("and", ("xor", a, b), ("xor", b, a)), ("xor", a, ("xor", a, b)), ("xor", a, b)]
+    return atoms + neg + conj[:k] + nested
 
 
 def main(tier):
@@ -45,6 +51,55 @@ def main(tier):
             dis.append({"p": texts[k // n], "q": texts[k % n], "model": o, "implementation": e})
     chk.add_corr("imp/all-pairs", len(reqs), dis)
     chk.evaluations += len(reqs)
+    # print-alike block: the same atom pairs over 9, 10 and then over "9", "10" (same repr, "10" < "9")
+    pa = []
+    for sort in ("num", "str"):
+        A = cases.printalike_atoms(sort)
+        A = A + [("and", a, b) for a, b in zip(A, A[3:])]
+        pa += [(a, b) for a in A for b in A]
+    pobj = {}
+    preq, pexp = [], []
+    for a, b in pa:
+        for t in (a, b):
+            if t not in pobj:
+                pobj[t] = lift.lower(t)
+        preq.append(f"imp {S.show(a)} {S.show(b)}")
+        try:
+            pexp.append("T" if implies(pobj[a], pobj[b]) else "F")
+        except Exception as e:  # noqa: BLE001
+            pexp.append(f"RAISED {type(e).__name__}")
+    pout = driver.run(preq)
+    pdis = [{"p": S.show(a), "q": S.show(b), "model": o, "implementation": e} for (a, b), o, e in zip(pa, pout, pexp) if o != e]
+    chk.add_corr("imp/print-alike-constants", len(preq), pdis, note='atoms over 9, 10 and over "9", "10"')
+    chk.evaluations += len(preq)
+    for (a, b), e in zip(pa, pexp):  # soundness on the real objects
+        if e == "T":
+            for x in (8, 9, 9.5, 10, 11, "1", "10", "5", "9", "95", "a"):
+                try:
+                    if pobj[a](x) and not pobj[b](x):
+                        chk.add_failure(f"implies({S.show(a)}, {S.show(b)})", {"what": "returns True but a value satisfies p and not q", "value": repr(x)}, None)
+                        break
+                except TypeError:
+                    continue
+    # twin pass (same process, after the numeric pass): the same pairs over the digit-string twins of their constants;
+    # strings "1" < "2" < "3" are ordered like the numbers, so every answer must be the same
+    tw = [k for k, sx_ in enumerate(preds) if lift.twinnable(sx_)]
+    with lift.twin():
+        tobjs = {k: lift.lower(preds[k]) for k in tw}
+        tdis, tn = [], 0
+        for i in tw:
+            for j in tw:
+                try:
+                    r = "T" if implies(tobjs[i], tobjs[j]) else "F"
+                except Exception as e:  # noqa: BLE001
+                    r = f"RAISED {type(e).__name__}"
+                tn += 1
+                if r != expect[i * n + j]:
+                    tdis.append({"p": texts[i], "q": texts[j], "numeric_constants": expect[i * n + j], "string_twins": r})
+    chk.add_corr("imp/string-twins", tn, tdis, note="same pairs over order-isomorphic str constants")
+    chk.evaluations += tn
+    for d in tdis[:5]:
+        chk.add_failure(f"implies({d['p']}, {d['q']})  [constants lowered as the strings that print the same]", {"what": "implies depends on how constants print, not on their values", **d}, None)
     # the property on the real code
     scal = cases.SCALAR_VALUES
     coll = cases.coll_values()
